@@ -509,14 +509,31 @@ impl ProcfsHandle {
 }
 
 fn open_follow_body(is_link: u8) {
+    open_follow_body_s(is_link, false)
+}
+
+/// `no_faults`: the scenario in which no kernel call before the final open FAILS (parent lookup and
+/// both statx calls answer, with arbitrary DATA: mount ids, masks) and the flag word is not a
+/// creation one -- the scenario that decides "a link is followed only after its mount id was
+/// compared with the parent's"; the failing-call scenarios are the all-P_ANY variant.
+fn open_follow_body_s(is_link: u8, no_faults: bool) {
     install_close_model();
     reset(3);
     let hfd = given_fd(false);
     let h = ProcfsHandle::verif_make(hfd, kani::any(), false, true);
     kmut().plan[0] = is_link; // first fallible call = the readlink probe
+    if no_faults {
+        let k = kmut();
+        k.plan[1] = P_OK;
+        k.plan[2] = P_OK;
+        k.plan[3] = P_OK;
+    }
     let (buf, len) = sym_subpath();
     let sub = Path::new(std::ffi::OsStr::from_bytes(&buf[..len]));
     let bits: i32 = kani::any();
+    if no_faults {
+        kani::assume(bits & (libc::O_CREAT | libc::O_EXCL) == 0 && bits & libc::O_TMPFILE != libc::O_TMPFILE);
+    }
     let res = h.open_follow(ProcfsBase::ProcThreadSelf, sub, OpenFlags::from_bits_retain(bits));
     let (ok, retfd, kind) = match &res {
         Ok(f) => (true, f.as_raw_fd(), None),
@@ -654,6 +671,19 @@ macro_rules! of_h {
     };
 }
 of_h!(procfs_open_follow_link, P_OK);
+
+#[kani::proof]
+#[kani::unwind(18)]
+#[kani::stub(crate::procfs::ProcfsHandle::readlink, crate::procfs::ProcfsHandle::k_readlink)]
+#[kani::stub(crate::procfs::ProcfsHandle::open, crate::procfs::ProcfsHandle::k_ph_open)]
+#[kani::stub(crate::syscalls::statx, k_statx)]
+#[kani::stub(crate::syscalls::openat_follow, k_openat_follow)]
+#[kani::stub(mc::memchr::memchr, k_memchr)]
+#[kani::stub(mc::memchr::memrchr, k_memrchr)]
+#[kani::stub(alloc::fmt::format, k_format)]
+fn procfs_open_follow_link_nofault() {
+    open_follow_body_s(P_OK, true);
+}
 of_h!(procfs_open_follow_notlink, P_FAIL);
 
 // ---------------------------------------------------------------------------
